@@ -193,7 +193,8 @@ D10 = ([("false",)], [("fileinto", "Never"), ("stop",)], "anyof")  # a filter wh
 D11 = ([("true",)], [("keep",)], "allof")
 D12 = ([("Subject", ":is", "dup"), ("exists", "X-B"), ("Subject", ":is", "dup")], [("keep",)], "anyof")  # last condition equals the first
 D13 = ([("Subject", ":contains", "away")], [("vacation", ":seconds", 90, ":subject", "Out", "gone")], "anyof")
-DEFS = {"d13": D13, "d1": D1, "d2": D2, "d3": D3, "d4": D4, "d5": D5, "d6": D6, "d7": D7, "d8": D8, "d9": D9, "d10": D10, "d11": D11, "d12": D12}
+D14 = ([("Subject", ":contains", "zero")], [("vacation", ":days", 0, "reason")], "anyof")
+DEFS = {"d14": D14, "d13": D13, "d1": D1, "d2": D2, "d3": D3, "d4": D4, "d5": D5, "d6": D6, "d7": D7, "d8": D8, "d9": D9, "d10": D10, "d11": D11, "d12": D12}
 
 
 def new_set(ns, name="t", **kw):
